@@ -197,6 +197,10 @@ func genCaseC09(t *rapid.T) *Case {
 	rows := allRows()
 	row := rows[rapid.IntRange(0, len(rows)-1).Draw(t, "row")]
 	applyRow(t, c, row, d.Ops[0])
+	if rapid.IntRange(0, 2).Draw(t, "reuseParsedRequest") == 0 {
+		// the parsed request has been resolved before, with every condition variable the other way round
+		c.PrimeVars = FlipBooleans(c)
+	}
 	return c
 }
 
@@ -219,6 +223,9 @@ func checkC09(c *Case) (ds []hx.Discrepancy, exp *hx.Expect, res map[string]inte
 func classesC09(c *Case, exp *hx.Expect) (bool, []string) {
 	_, cl := classesC01(c, exp)
 	cl = append(cl, "row: "+c.Note)
+	if len(c.PrimeVars) > 0 {
+		cl = append(cl, "parsed-request-resolved-before-with-other-conditions")
+	}
 	both := false
 	if exp != nil {
 		c.Doc.Walk(func(s *hx.Sel, depth int) {
@@ -292,12 +299,21 @@ func TestC09(t *testing.T) {
 						continue
 					}
 					applyRowAt(c, row, (*ss[si].parent)[ss[si].idx])
-					ds, exp, _, _ := checkC09(c)
-					nt, cl := classesC09(c, exp)
-					run.Case(hx.Hash(c), nt, cl...)
-					n++
-					if real := run.Triage(ds); len(real) > 0 {
-						t.Fatalf("C09 violated (exhaustive table): %s", run.ReportFailure(c, real))
+					for _, reuse := range []bool{false, true} {
+						if reuse {
+							// the same row on a parsed request that was resolved before with the
+							// condition variables the other way round
+							if c.PrimeVars = FlipBooleans(c); len(c.PrimeVars) == 0 {
+								continue
+							}
+						}
+						ds, exp, _, _ := checkC09(c)
+						nt, cl := classesC09(c, exp)
+						run.Case(hx.Hash(c), nt, cl...)
+						n++
+						if real := run.Triage(ds); len(real) > 0 {
+							t.Fatalf("C09 violated (exhaustive table): %s", run.ReportFailure(c, real))
+						}
 					}
 				}
 			}
